@@ -95,7 +95,7 @@ def compile_harness(name, flavour="plain", extra=()):
     cmd = ["g++", "-std=gnu++20", "-O1", "-g1", "-DOPENMP", "-D" + GUARD, "-fopenmp",
            "-I" + os.path.join(REPO, "include"), "-I" + bdir, "-I" + HARNESS,
            "-isystem", "/usr/include/eigen3",
-           src, "-o", exe, "-L" + libdir, "-lgstlearn", "-Wl,-rpath," + libdir]
+           src, "-o", exe, "-L" + libdir, "-lgstlearnd" if flavour == "asan" else "-lgstlearn", "-Wl,-rpath," + libdir]
     if flavour == "asan":
         cmd[3:3] = ["-fsanitize=address,undefined", "-fno-sanitize-recover=all"]
     cmd += list(extra)
